@@ -599,4 +599,967 @@ theorem tells_only_active (cfg : Cfg) (s : St) (status : Nat → Nat) (hc : Cons
     simp only [Nat.zero_add] at h1; subst h1; exact h2
   · rw [tellSpecFrom_partition, (hc hp).1, List.range_eq_range']
 
+/-! ## T16.3 the counts match what actually happened -/
+
+/-- the counts of the pool members numbered from `i` agree with the trace: `selection` = rows the
+    member was told about, `success` = those of them with non-zero status, and every row the member
+    ever generated has been counted — except, while a batch is out (`asking`), the rows of that
+    batch. -/
+def CountsOK (asking : Bool) : Nat → List Em → List Event → Prop
+  | _, [], _ => True
+  | i, em :: ems, tr =>
+    em.selection = toldTo i tr ∧ em.success = insertedOf i tr ∧
+    emittedBy i tr = em.selection + (if asking && em.active then em.emitted.getD 0 else 0) ∧
+    CountsOK asking (i + 1) ems tr
+
+theorem countsOK_get (asking : Bool) (i : Nat) (p : List Em) (tr : List Event)
+    (h : CountsOK asking i p tr) (k : Nat) (em : Em) (hk : p[k]? = some em) :
+    em.selection = toldTo (i + k) tr ∧ em.success = insertedOf (i + k) tr ∧
+      emittedBy (i + k) tr = em.selection + (if asking && em.active then em.emitted.getD 0 else 0) := by
+  induction p generalizing i k with
+  | nil => simp at hk
+  | cons x xs ih =>
+    cases k with
+    | zero => simp at hk; subst hk; exact ⟨h.1, h.2.1, h.2.2.1⟩
+    | succ k =>
+      have := ih (i + 1) h.2.2.2 k (by simpa using hk)
+      rw [show i + (k + 1) = i + 1 + k by omega]; exact this
+
+theorem toldTo_append (e : Nat) (a b : List Event) : toldTo e (a ++ b) = toldTo e a + toldTo e b := by
+  induction a with
+  | nil => simp [toldTo]
+  | cons x xs ih => cases x <;> simp [toldTo, ih]; omega
+
+theorem insertedOf_append (e : Nat) (a b : List Event) :
+    insertedOf e (a ++ b) = insertedOf e a + insertedOf e b := by
+  induction a with
+  | nil => simp [insertedOf]
+  | cons x xs ih => cases x <;> simp [insertedOf, ih]; omega
+
+theorem emittedBy_append (e : Nat) (a b : List Event) :
+    emittedBy e (a ++ b) = emittedBy e a + emittedBy e b := by
+  induction a with
+  | nil => simp [emittedBy]
+  | cons x xs ih => cases x <;> simp [emittedBy, ih]; omega
+
+/-- events that do not concern the members numbered `i` and above -/
+def Below (i : Nat) (evs : List Event) : Prop :=
+  ∀ e, i ≤ e → toldTo e evs = 0 ∧ insertedOf e evs = 0 ∧ emittedBy e evs = 0
+
+theorem below_nil (i : Nat) : Below i [] := by intro e _; simp [toldTo, insertedOf, emittedBy]
+
+theorem below_append (i : Nat) (a b : List Event) (ha : Below i a) (hb : Below i b) : Below i (a ++ b) := by
+  intro e he
+  simp [toldTo_append, insertedOf_append, emittedBy_append, ha e he, hb e he]
+
+theorem below_mono (i j : Nat) (a : List Event) (h : Below i a) (hij : i ≤ j) : Below j a :=
+  fun e he => h e (by omega)
+
+theorem below_addEvents (cfg : Cfg) (total i : Nat) : Below i (addEvents cfg total) := by
+  intro e _
+  have key : ∀ l : List Event, (∀ x ∈ l, ∃ r rows, x = Event.add r rows) →
+      toldTo e l = 0 ∧ insertedOf e l = 0 ∧ emittedBy e l = 0 := by
+    intro l hl
+    induction l with
+    | nil => simp [toldTo, insertedOf, emittedBy]
+    | cons x xs ih =>
+      obtain ⟨r, rows, rfl⟩ := hl x (by simp)
+      simpa [toldTo, insertedOf, emittedBy] using ih (fun y hy => hl y (by simp [hy]))
+  apply key
+  intro x hx
+  cases hm : cfg.mode <;> cases hr : cfg.hasResult <;> simp [addEvents, hm, hr] at hx
+  · exact ⟨_, _, hx⟩
+  · rcases hx with rfl | rfl <;> exact ⟨_, _, rfl⟩
+  · obtain ⟨_, _, rfl⟩ := hx; exact ⟨_, _, rfl⟩
+  · obtain ⟨_, _, rfl | rfl⟩ := hx <;> exact ⟨_, _, rfl⟩
+
+theorem askSpecFrom_zero (batch : Nat → Nat) (i : Nat) (p : List Em) (e : Nat) :
+    toldTo e (askSpecFrom batch i p) = 0 ∧ insertedOf e (askSpecFrom batch i p) = 0 ∧
+      (e < i → emittedBy e (askSpecFrom batch i p) = 0) := by
+  induction p generalizing i with
+  | nil => simp [askSpecFrom, toldTo, insertedOf, emittedBy]
+  | cons em ems ih =>
+    have := ih (i + 1)
+    simp only [askSpecFrom]
+    cases em.active with
+    | true =>
+      simp only [if_true, toldTo, insertedOf, emittedBy, this.1, this.2.1, true_and]
+      intro he
+      rw [this.2.2 (by omega)]
+      simp; omega
+    | false =>
+      simp only [Bool.false_eq_true, if_false]
+      exact ⟨this.1, this.2.1, fun he => this.2.2 (by omega)⟩
+
+theorem tellSpecFrom_zero (status : Nat → Nat) (i pos : Nat) (p : List Em) (e : Nat) :
+    emittedBy e (tellSpecFrom status i pos p) = 0 ∧
+      (e < i → toldTo e (tellSpecFrom status i pos p) = 0 ∧
+        insertedOf e (tellSpecFrom status i pos p) = 0) := by
+  induction p generalizing i pos with
+  | nil => simp [tellSpecFrom, toldTo, insertedOf, emittedBy]
+  | cons em ems ih =>
+    simp only [tellSpecFrom]
+    cases em.active with
+    | true =>
+      have := ih (i + 1) (pos + em.emitted.getD 0)
+      simp only [if_true, toldTo, insertedOf, emittedBy, this.1, true_and]
+      intro he
+      have h2 := this.2 (by omega)
+      rw [h2.1, h2.2]
+      have : ¬ i = e := by omega
+      simp [this]
+    | false =>
+      have := ih (i + 1) pos
+      simp only [Bool.false_eq_true, if_false]
+      exact ⟨this.1, fun he => this.2 (by omega)⟩
+
+/-- `CountsOK false` only looks at the two counters -/
+theorem countsOK_false_congr (i : Nat) (p q : List Em) (tr : List Event)
+    (h : p.map (fun em => (em.selection, em.success)) = q.map (fun em => (em.selection, em.success)))
+    (hp : CountsOK false i p tr) : CountsOK false i q tr := by
+  induction p generalizing i q with
+  | nil => cases q with
+    | nil => trivial
+    | cons _ _ => simp at h
+  | cons a p ih =>
+    cases q with
+    | nil => simp at h
+    | cons b q =>
+      simp only [List.map_cons, List.cons.injEq, Prod.mk.injEq] at h
+      obtain ⟨h1, h2, h3, h4⟩ := hp
+      simp only [Bool.false_and, Bool.false_eq_true, if_false, Nat.add_zero] at h3
+      refine ⟨by rw [← h.1.1]; exact h1, by rw [← h.1.2]; exact h2, ?_, ih _ _ h.2 h4⟩
+      simp only [Bool.false_and, Bool.false_eq_true, if_false, Nat.add_zero]
+      rw [← h.1.1]; exact h3
+
+/-- the counters survive steps 1–3 of `ask` -/
+theorem markFrom_cnt (cfg : Cfg) (env : AskEnv) (i : Nat) (p : List Em) :
+    (markFrom cfg env i p).map (fun x => (x.1.selection, x.1.success)) =
+      p.map (fun em => (em.selection, em.success)) := by
+  induction p generalizing i with
+  | nil => rfl
+  | cons em ems ih => cases h : cfg.resel <;> simp [markFrom, h, ih]
+
+theorem fill_cnt (k : Nat) (l l' : List (Em × Bool)) (h : fill k l = some l') :
+    l'.map (fun x => (x.1.selection, x.1.success)) = l.map (fun x => (x.1.selection, x.1.success)) := by
+  induction l generalizing k l' with
+  | nil =>
+    cases k with
+    | zero => simp [fill] at h; subst h; rfl
+    | succ k => simp [fill] at h
+  | cons x l ih =>
+    cases k with
+    | zero => simp [fill] at h; subst h; rfl
+    | succ k =>
+      obtain ⟨em, m⟩ := x
+      simp only [fill, Option.map_eq_some_iff] at h
+      obtain ⟨t, ht, rfl⟩ := h
+      simp [ih _ _ ht]
+
+theorem prepare_cnt (cfg : Cfg) (env : AskEnv) (pool kept : List Em) (maskAny : Bool)
+    (h : prepare cfg env pool = some (kept, maskAny)) :
+    kept.map (fun em => (em.selection, em.success)) = pool.map (fun em => (em.selection, em.success)) := by
+  simp only [prepare, Option.map_eq_some_iff, Prod.mk.injEq] at h
+  obtain ⟨l, hl, rfl, _⟩ := h
+  rw [← markFrom_cnt cfg env 0 pool, ← fill_cnt _ _ _ hl]
+  simp [deactivate, List.map_map, Function.comp_def]
+
+theorem setActive_cnt (p : List Em) (a : List Bool) (h : a.length = p.length) :
+    (setActive p a).map (fun em => (em.selection, em.success)) =
+      p.map (fun em => (em.selection, em.success)) := by
+  induction p generalizing a with
+  | nil => cases a <;> simp_all [setActive]
+  | cons em ems ih =>
+    cases a with
+    | nil => simp at h
+    | cons b bs =>
+      simp only [setActive, List.zipWith_cons_cons, List.map_cons] at ih ⊢
+      simp [ih bs (by simpa using h)]
+
+/-- ask: the rows generated now are pending -/
+theorem countsOK_ask (batch : Nat → Nat) (i : Nat) (p : List Em) (tr extra : List Event)
+    (h : CountsOK false i p tr) (hx : Below i extra) :
+    CountsOK true i (askLoop batch i p).1 (tr ++ extra ++ askSpecFrom batch i (askLoop batch i p).1) := by
+  induction p generalizing i extra with
+  | nil => trivial
+  | cons em ems ih =>
+    obtain ⟨h1, h2, h3, h4⟩ := h
+    simp only [Bool.false_and, Bool.false_eq_true, if_false, Nat.add_zero] at h3
+    have hxi := hx i (Nat.le_refl i)
+    simp only [askLoop]
+    cases ha : em.active with
+    | true =>
+      simp only [if_true, askSpecFrom]
+      have hz := askSpecFrom_zero batch (i + 1) (askLoop batch (i + 1) ems).1 i
+      refine ⟨?_, ?_, ?_, ?_⟩
+      · simp [toldTo_append, toldTo, hxi.1, hz.1, h1]
+      · simp [insertedOf_append, insertedOf, hxi.2.1, hz.2.1, h2]
+      · simp [emittedBy_append, emittedBy, hxi.2.2, hz.2.2 (by omega), h3]
+      · have hb : Below (i + 1) (extra ++ [Event.ask i (batch i)]) := by
+          apply below_append _ _ _ (below_mono _ _ _ hx (by omega))
+          intro e he
+          have : ¬ i = e := by omega
+          simp [toldTo, insertedOf, emittedBy, this]
+        have := ih (i + 1) (extra ++ [Event.ask i (batch i)]) h4 hb
+        simpa [List.append_assoc] using this
+    | false =>
+      simp only [Bool.false_eq_true, if_false, askSpecFrom, ha]
+      have hz := askSpecFrom_zero batch (i + 1) (askLoop batch (i + 1) ems).1 i
+      refine ⟨?_, ?_, ?_, ?_⟩
+      · simp [toldTo_append, hxi.1, hz.1, h1]
+      · simp [insertedOf_append, hxi.2.1, hz.2.1, h2]
+      · simp [emittedBy_append, hxi.2.2, hz.2.2 (by omega), h3, ha]
+      · exact ih (i + 1) extra h4 (below_mono _ _ _ hx (by omega))
+
+/-- tell: the pending rows are counted, the non-zero statuses among them as successes -/
+theorem countsOK_tell (status : Nat → Nat) (i pos : Nat) (p : List Em) (tr extra : List Event)
+    (h : CountsOK true i p tr) (hx : Below i extra) :
+    CountsOK false i (countedFrom status pos p) (tr ++ extra ++ tellSpecFrom status i pos p) := by
+  induction p generalizing i pos extra with
+  | nil => trivial
+  | cons em ems ih =>
+    obtain ⟨h1, h2, h3, h4⟩ := h
+    have hxi := hx i (Nat.le_refl i)
+    simp only [countedFrom, tellSpecFrom]
+    cases ha : em.active with
+    | true =>
+      simp only [ha, Bool.true_and, if_true] at h3
+      simp only [if_true]
+      have hz := tellSpecFrom_zero status (i + 1) (pos + em.emitted.getD 0) ems i
+      have hz2 := hz.2 (by omega)
+      refine ⟨?_, ?_, ?_, ?_⟩
+      · simp [toldTo_append, toldTo, hxi.1, hz2.1, h1]
+      · simp [insertedOf_append, insertedOf, hxi.2.1, hz2.2, h2, List.filter_map, Function.comp_def]
+      · simp [emittedBy_append, emittedBy, hxi.2.2, hz.1, h3]
+      · have hb : Below (i + 1) (extra ++ [Event.tell i (gen i (em.emitted.getD 0))
+            (List.range' pos (em.emitted.getD 0)) ((List.range' pos (em.emitted.getD 0)).map status)]) := by
+          apply below_append _ _ _ (below_mono _ _ _ hx (by omega))
+          intro e he
+          have : ¬ i = e := by omega
+          simp [toldTo, insertedOf, emittedBy, this]
+        have := ih (i + 1) (pos + em.emitted.getD 0) _ h4 hb
+        simpa [List.append_assoc] using this
+    | false =>
+      simp only [ha, Bool.and_false, Bool.false_eq_true, if_false, Nat.add_zero] at h3
+      simp only [Bool.false_eq_true, if_false]
+      have hz := tellSpecFrom_zero status (i + 1) pos ems i
+      have hz2 := hz.2 (by omega)
+      refine ⟨?_, ?_, ?_, ?_⟩
+      · simp [toldTo_append, hxi.1, hz2.1, h1]
+      · simp [insertedOf_append, hxi.2.1, hz2.2, h2]
+      · simp [emittedBy_append, hxi.2.2, hz.1, h3]
+      · exact ih (i + 1) pos extra h4 (below_mono _ _ _ hx (by omega))
+
+theorem countedFrom_active (status : Nat → Nat) (pos : Nat) (p : List Em) :
+    (countedFrom status pos p).map (·.active) = p.map (·.active) ∧
+      (countedFrom status pos p).length = p.length := by
+  induction p generalizing pos with
+  | nil => simp [countedFrom]
+  | cons em ems ih =>
+    simp only [countedFrom]
+    cases ha : em.active <;> simp [ha, (ih _).1, (ih _).2]
+
+/-! ## whole histories -/
+
+/-- what holds in every state reached by calls on a fresh scheduler with a pool of `n` -/
+structure Good (cfg : Cfg) (n : Nat) (s : St) : Prop where
+  len : s.pool.length = n
+  le : countActive s.pool ≤ cfg.numActive
+  eq : s.phase ≠ .none → countActive s.pool = cfg.numActive
+  zero : s.phase = .none → countActive s.pool = 0
+  cons : Consistent s
+  counts : CountsOK (decide (s.phase = .ask)) 0 s.pool s.trace
+
+theorem countActive_replicate_fresh (n : Nat) : countActive (List.replicate n Em.fresh) = 0 := by
+  induction n with
+  | zero => rfl
+  | succ n ih => rw [List.replicate_succ, countActive_cons, ih]; rfl
+
+theorem good_init (cfg : Cfg) (n : Nat) : Good cfg n (init n) := by
+  have hc := countActive_replicate_fresh
+  have hk : ∀ n i, CountsOK false i (List.replicate n Em.fresh) [] := by
+    intro n; induction n with
+    | zero => intro i; trivial
+    | succ n ih =>
+      intro i
+      simp only [List.replicate_succ]
+      exact ⟨rfl, rfl, by simp [emittedBy, Em.fresh], ih _⟩
+  refine ⟨by simp [init], by simp [init, hc], by simp [init], by simp [init, hc],
+    by intro h; simp [init] at h, ?_⟩
+  simpa [init] using hk n 0
+
+theorem good_step (cfg : Cfg) (n : Nat) (hn : cfg.numActive ≤ n) (s : St) (op : Op) (hg : Good cfg n s) :
+    Good cfg n (step cfg s op).1 := by
+  cases op with
+  | ask env =>
+    cases hout : (step cfg s (.ask env)).2 with
+    | error e => rw [rejected_unchanged cfg s _ (Or.inl ⟨e, hout⟩)]; exact hg
+    | inadmissible => rw [rejected_unchanged cfg s _ (Or.inr hout)]; exact hg
+    | told =>
+      exfalso
+      simp only [step, doAsk] at hout
+      (repeat' split at hout) <;> simp at hout
+    | asked sols =>
+      simp only [step] at hout ⊢
+      have hna := num_active_invariant cfg s env sols (by rw [hg.len]; exact hn) hg.le hout
+      have hao := asks_only_active cfg s env sols hout
+      obtain ⟨kept, maskAny, chosen, nw, lf, hph, hprep, _, hd, _, _, hs, _⟩ := doAsk_asked cfg s env sols hout
+      have hdc := diffFrom_count 0 kept chosen nw lf hd
+      refine ⟨by rw [hna.2, hg.len], by omega, fun _ => hna.1, ?_, ?_, ?_⟩
+      · intro hnone; rw [hao.1] at hnone; cases hnone
+      · intro _; exact ⟨by rw [hao.2.2.2.2.2.1, hao.2.2.2.2.1], hao.2.2.2.2.2.2⟩
+      · rw [hao.1, hao.2.1]
+        have h0 : CountsOK false 0 s.pool s.trace := by simpa [hph] using hg.counts
+        have h1 : CountsOK false 0 (setActive kept chosen) s.trace :=
+          countsOK_false_congr 0 _ _ _ (by rw [setActive_cnt _ _ hdc.1, prepare_cnt cfg env _ _ _ hprep]) h0
+        have := countsOK_ask env.batch 0 (setActive kept chosen) s.trace [] h1 (below_nil 0)
+        rw [hs]
+        simpa using this
+  | tell st =>
+    cases hout : (step cfg s (.tell st)).2 with
+    | error e => rw [rejected_unchanged cfg s _ (Or.inl ⟨e, hout⟩)]; exact hg
+    | inadmissible => rw [rejected_unchanged cfg s _ (Or.inr hout)]; exact hg
+    | asked sols =>
+      exfalso
+      simp only [step, doTell] at hout
+      (repeat' split at hout) <;> simp at hout
+    | told =>
+      have hp : s.phase = .ask := by
+        simp only [step, doTell] at hout
+        by_cases hp : s.phase = .ask
+        · exact hp
+        · simp [hp] at hout
+      simp only [step]
+      rw [tell_slices cfg s st hg.cons hp]
+      have hca := countedFrom_active st 0 s.pool
+      have hcount : countActive (countedFrom st 0 s.pool) = countActive s.pool :=
+        countActive_congr _ _ hca.1
+      refine ⟨by simp only; rw [hca.2, hg.len], by simp only; rw [hcount]; exact hg.le,
+        fun _ => by simp only; rw [hcount]; exact hg.eq (by simp [hp]), by intro h; simp at h,
+        by intro h; simp at h, ?_⟩
+      have h0 : CountsOK true 0 s.pool s.trace := by simpa [hp] using hg.counts
+      have := countsOK_tell st 0 0 s.pool s.trace (addEvents cfg s.cur.length) h0 (below_addEvents _ _ _)
+      simpa using this
+  | askDqd => exact hg
+  | tellDqd => exact hg
+
+theorem good_run (cfg : Cfg) (n : Nat) (hn : cfg.numActive ≤ n) (ops : List Op) :
+    Good cfg n (run cfg (init n) ops) := by
+  suffices ∀ s, Good cfg n s → Good cfg n (run cfg s ops) from this _ (good_init cfg n)
+  induction ops with
+  | nil => intro s h; exact h
+  | cons op ops ih => intro s h; exact ih _ (good_step cfg n hn s op h)
+
+/-- T16.1 for every history: on a scheduler built with `pool ≥ num_active`, after any sequence of
+    calls (legal or not) the pool keeps its size, no emitter is active before the first accepted
+    `ask`, and from then on exactly `num_active` are. -/
+theorem num_active_run (cfg : Cfg) (n : Nat) (hn : cfg.numActive ≤ n) (ops : List Op) :
+    let s := run cfg (init n) ops
+    s.pool.length = n ∧ (s.phase = .none → countActive s.pool = 0) ∧
+      (s.phase ≠ .none → countActive s.pool = cfg.numActive) := by
+  have hg := good_run cfg n hn ops
+  exact ⟨hg.len, hg.zero, hg.eq⟩
+
+/-- every state reached by calls is consistent (so `tell_slices` / `tells_only_active` / `tell_ok`
+    apply to every in-order `tell` of every history) -/
+theorem consistent_run (cfg : Cfg) (n : Nat) (hn : cfg.numActive ≤ n) (ops : List Op) :
+    Consistent (run cfg (init n) ops) := (good_run cfg n hn ops).cons
+
+/-- T16.3 `counts_exact`: after any history of calls, for every pool member `e`:
+    `selection[e]` is the number of rows it was told about, `success[e]` the number of those the
+    archive reported as inserted (non-zero status), and every row `e` ever generated is counted in
+    `selection[e]` — except the rows of the batch that is still waiting for its `tell`. -/
+theorem counts_exact (cfg : Cfg) (n : Nat) (hn : cfg.numActive ≤ n) (ops : List Op) (e : Nat) (em : Em)
+    (he : (run cfg (init n) ops).pool[e]? = some em) :
+    let s := run cfg (init n) ops
+    em.selection = toldTo e s.trace ∧ em.success = insertedOf e s.trace ∧
+      emittedBy e s.trace = em.selection +
+        (if s.phase = .ask ∧ em.active = true then em.emitted.getD 0 else 0) := by
+  have hg := good_run cfg n hn ops
+  have := countsOK_get _ 0 _ _ hg.counts e em he
+  simp only [Nat.zero_add, Bool.and_eq_true, decide_eq_true_eq] at this
+  exact this
+
+/-! ## T16.4 selection order -/
+
+theorem activeAt_eq (p : List Em) (k : Nat) : activeAt p k = ((p.map (·.active))[k]?).getD false := by
+  simp only [activeAt, List.getElem?_map]
+  cases p[k]? <;> rfl
+
+/-- what the check's index lists contain -/
+theorem diffFrom_mem (i : Nat) (kept : List Em) (a : List Bool) (nw lf : List Nat)
+    (h : diffFrom i kept a = some (nw, lf)) :
+    (∀ k, k < kept.length → activeAt kept k = false → a[k]? = some true → i + k ∈ nw) ∧
+    (∀ k, k < kept.length → a[k]? = some false → i + k ∈ lf) ∧
+    (∀ k, activeAt kept k = true → a[k]? = some true) := by
+  induction kept generalizing i a nw lf with
+  | nil => cases a <;> simp_all [diffFrom, activeAt]
+  | cons em ems ih =>
+    cases a with
+    | nil => simp [diffFrom] at h
+    | cons b bs =>
+      simp only [diffFrom] at h
+      cases hd : diffFrom (i + 1) ems bs with
+      | none => simp [hd] at h
+      | some r =>
+        obtain ⟨nw1, lf1⟩ := r
+        obtain ⟨i1, i2, i3⟩ := ih _ _ _ _ hd
+        simp only [hd] at h
+        have hsucc : ∀ k, i + (k + 1) = i + 1 + k := by intro k; omega
+        cases ha : em.active <;> cases hb : b <;> simp [ha, hb] at h
+        all_goals obtain ⟨rfl, rfl⟩ := h
+        · refine ⟨?_, ?_, ?_⟩
+          · intro k hk h1 h2
+            cases k with
+            | zero => simp at h2
+            | succ k =>
+              rw [hsucc]; exact i1 k (by simpa using hk) (by simpa [activeAt_cons_succ] using h1) (by simpa using h2)
+          · intro k hk h2
+            cases k with
+            | zero => simp
+            | succ k => rw [hsucc]; exact List.mem_cons_of_mem _ (i2 k (by simpa using hk) (by simpa using h2))
+          · intro k h1
+            cases k with
+            | zero => simp [activeAt, ha] at h1
+            | succ k => simpa using i3 k (by simpa [activeAt_cons_succ] using h1)
+        · refine ⟨?_, ?_, ?_⟩
+          · intro k hk h1 h2
+            cases k with
+            | zero => simp
+            | succ k =>
+              rw [hsucc]
+              exact List.mem_cons_of_mem _
+                (i1 k (by simpa using hk) (by simpa [activeAt_cons_succ] using h1) (by simpa using h2))
+          · intro k hk h2
+            cases k with
+            | zero => simp at h2
+            | succ k => rw [hsucc]; exact i2 k (by simpa using hk) (by simpa using h2)
+          · intro k h1
+            cases k with
+            | zero => simp [activeAt, ha] at h1
+            | succ k => simpa using i3 k (by simpa [activeAt_cons_succ] using h1)
+        · refine ⟨?_, ?_, ?_⟩
+          · intro k hk h1 h2
+            cases k with
+            | zero => simp [activeAt, ha] at h1
+            | succ k =>
+              rw [hsucc]; exact i1 k (by simpa using hk) (by simpa [activeAt_cons_succ] using h1) (by simpa using h2)
+          · intro k hk h2
+            cases k with
+            | zero => simp at h2
+            | succ k => rw [hsucc]; exact i2 k (by simpa using hk) (by simpa using h2)
+          · intro k h1
+            cases k with
+            | zero => simp
+            | succ k => simpa using i3 k (by simpa [activeAt_cons_succ] using h1)
+
+/-- after an accepted ask the active flags are the checked activation vector -/
+theorem asked_active (cfg : Cfg) (s : St) (env : AskEnv) (sols : List Sol)
+    (h : (doAsk cfg s env).2 = .asked sols) :
+    ∃ kept maskAny chosen nw lf,
+      prepare cfg env s.pool = some (kept, maskAny) ∧
+      chosen = chosenOf env (need cfg kept maskAny) kept ∧
+      diffFrom 0 kept chosen = some (nw, lf) ∧
+      (∀ c ∈ nw, ∀ j ∈ lf, (env.score c).ge (env.score j) = true) ∧
+      kept.length = s.pool.length ∧ chosen.length = kept.length ∧
+      (∀ k, activeAt (doAsk cfg s env).1.pool k = (chosen[k]?).getD false) := by
+  obtain ⟨kept, maskAny, chosen, nw, lf, _, hprep, hch, hd, _, hord, hs, _⟩ := doAsk_asked cfg s env sols h
+  have hdc := diffFrom_count 0 kept chosen nw lf hd
+  have hlen : kept.length = s.pool.length := by
+    simp only [prepare, Option.map_eq_some_iff, Prod.mk.injEq] at hprep
+    obtain ⟨l, hl, rfl, _⟩ := hprep
+    rw [deactivate_length, (fill_count _ _ _ hl).1, markFrom_length]
+  refine ⟨kept, maskAny, chosen, nw, lf, hprep, hch, hd, hord, hlen, hdc.1, ?_⟩
+  intro k
+  rw [hs, activeAt_eq]
+  simp only
+  rw [askLoop_active, setActive_active _ _ hdc.1]
+
+/-- T16.4 `selection_order`: in every accepted `ask`, every emitter that is newly activated
+    (inactive after the deactivation step, active afterwards) has a UCB1 score at least as high — up
+    to ties, i.e. overlapping brackets — as every emitter left inactive. -/
+theorem selection_order (cfg : Cfg) (s : St) (env : AskEnv) (sols : List Sol)
+    (h : (doAsk cfg s env).2 = .asked sols) :
+    ∃ kept maskAny, prepare cfg env s.pool = some (kept, maskAny) ∧
+      ∀ c j, c < s.pool.length → j < s.pool.length →
+        activeAt kept c = false → activeAt (doAsk cfg s env).1.pool c = true →
+        activeAt (doAsk cfg s env).1.pool j = false →
+        (env.score c).ge (env.score j) = true := by
+  obtain ⟨kept, maskAny, chosen, nw, lf, hprep, _, hd, hord, hlen, hcl, hact⟩ := asked_active cfg s env sols h
+  refine ⟨kept, maskAny, hprep, ?_⟩
+  intro c j hc hj hkc hac haj
+  obtain ⟨m1, m2, _⟩ := diffFrom_mem 0 kept chosen nw lf hd
+  have hc' : chosen[c]? = some true := by
+    rw [hact] at hac
+    have : c < chosen.length := by omega
+    rw [List.getElem?_eq_getElem this] at hac ⊢
+    simpa using hac
+  have hj' : chosen[j]? = some false := by
+    rw [hact] at haj
+    have : j < chosen.length := by omega
+    rw [List.getElem?_eq_getElem this] at haj ⊢
+    simpa using haj
+  have h1 := m1 c (by omega) hkc hc'
+  have h2 := m2 j (by omega) hj'
+  simp only [Nat.zero_add] at h1 h2
+  exact hord c h1 j h2
+
+/-- T16.4 `never_selected_first`: no previously selected emitter (finite score) is newly activated
+    while a never-selected one (score `top`) is left inactive. -/
+theorem never_selected_first (cfg : Cfg) (s : St) (env : AskEnv) (sols : List Sol)
+    (h : (doAsk cfg s env).2 = .asked sols) :
+    ∃ kept maskAny, prepare cfg env s.pool = some (kept, maskAny) ∧
+      ∀ c j, c < s.pool.length → j < s.pool.length →
+        activeAt kept c = false → activeAt (doAsk cfg s env).1.pool c = true →
+        activeAt (doAsk cfg s env).1.pool j = false →
+        env.score j = .top → env.score c = .top := by
+  obtain ⟨kept, maskAny, hprep, hord⟩ := selection_order cfg s env sols h
+  refine ⟨kept, maskAny, hprep, ?_⟩
+  intro c j hc hj h1 h2 h3 htop
+  have := hord c j hc hj h1 h2 h3
+  rw [htop] at this
+  cases hsc : env.score c with
+  | top => rfl
+  | iv lo hi => rw [hsc] at this; simp [Score.ge] at this
+
+/-! ## T16.5 reselect = 'terminated' keeps, 'all' resets -/
+
+theorem markFrom_get_terminated (cfg : Cfg) (env : AskEnv) (hres : cfg.resel = .terminated)
+    (i : Nat) (p : List Em) (k : Nat) :
+    (markFrom cfg env i p)[k]? = p[k]?.map fun em =>
+      ({ em with restarts := env.restarts (i + k) },
+       decide (em.restarts < env.restarts (i + k)) || decide (env.restarts (i + k) < 0)) := by
+  induction p generalizing i k with
+  | nil => simp [markFrom]
+  | cons em ems ih =>
+    cases k with
+    | zero => simp [markFrom, hres]
+    | succ k =>
+      simp only [markFrom, List.getElem?_cons_succ, ih]
+      rw [show i + 1 + k = i + (k + 1) by omega]
+
+/-- the fill loop never deactivates and never sets a mask bit -/
+theorem fill_keeps (n : Nat) (l l' : List (Em × Bool)) (h : fill n l = some l') (k : Nat) (em : Em)
+    (hk : l[k]? = some (em, false)) (ha : em.active = true) :
+    ∃ em', l'[k]? = some (em', false) ∧ em'.active = true := by
+  induction l generalizing n k l' with
+  | nil => simp at hk
+  | cons x l ih =>
+    cases n with
+    | zero => simp [fill] at h; subst h; exact ⟨em, hk, ha⟩
+    | succ n =>
+      obtain ⟨y, m⟩ := x
+      simp only [fill, Option.map_eq_some_iff] at h
+      obtain ⟨t, ht, rfl⟩ := h
+      cases k with
+      | zero => exact ⟨{ y with active := true }, by simp, rfl⟩
+      | succ k => simpa using ih _ _ ht k (by simpa using hk)
+
+/-- T16.5 `terminated_keeps`: with `reselect = 'terminated'`, an active emitter that has a restart
+    counter (`restarts ≥ 0`) which did not increase since the previous `ask` is still active after
+    every accepted `ask`. -/
+theorem terminated_keeps (cfg : Cfg) (s : St) (env : AskEnv) (sols : List Sol)
+    (hres : cfg.resel = .terminated) (h : (doAsk cfg s env).2 = .asked sols)
+    (k : Nat) (em : Em) (hk : s.pool[k]? = some em) (ha : em.active = true)
+    (h0 : 0 ≤ env.restarts k) (h1 : env.restarts k ≤ em.restarts) :
+    activeAt (doAsk cfg s env).1.pool k = true := by
+  obtain ⟨kept, maskAny, chosen, nw, lf, hprep, _, hd, _, _, _, hact⟩ := asked_active cfg s env sols h
+  obtain ⟨_, _, m3⟩ := diffFrom_mem 0 kept chosen nw lf hd
+  simp only [prepare, Option.map_eq_some_iff, Prod.mk.injEq] at hprep
+  obtain ⟨l, hl, rfl, _⟩ := hprep
+  have hm : (markFrom cfg env 0 s.pool)[k]? = some ({ em with restarts := env.restarts k }, false) := by
+    rw [markFrom_get_terminated cfg env hres, hk]
+    simp only [Nat.zero_add, Option.map_some, Option.some.injEq, Prod.mk.injEq, true_and,
+      Bool.or_eq_false_iff, decide_eq_false_iff_not]
+    omega
+  obtain ⟨em', he', ha'⟩ := fill_keeps _ _ _ hl k _ hm ha
+  have hkept : activeAt (deactivate l) k = true := by
+    simp [activeAt, deactivate, he', ha']
+  rw [hact, m3 k hkept]; rfl
+
+theorem deactivate_markFrom_all (cfg : Cfg) (env : AskEnv) (hres : cfg.resel = .all) (i : Nat) (p : List Em) :
+    ∀ em ∈ deactivate (markFrom cfg env i p), em.active = false := by
+  induction p generalizing i with
+  | nil => simp [markFrom, deactivate]
+  | cons x xs ih =>
+    intro em hem
+    simp only [markFrom, hres, deactivate, List.map_cons, List.mem_cons] at hem
+    rcases hem with rfl | hem
+    · cases x.active <;> rfl
+    · exact ih (i + 1) em (by simpa [deactivate] using hem)
+
+/-- T16.5 `all_resets`: with `reselect = 'all'` (and `num_active` emitters active, i.e. on every
+    `ask` but the first) nobody is kept: every slot is decided afresh, so by `selection_order` every
+    emitter active after the `ask` scores at least as high as every inactive one. -/
+theorem all_resets (cfg : Cfg) (env : AskEnv) (pool kept : List Em) (maskAny : Bool)
+    (hres : cfg.resel = .all) (hfull : cfg.numActive ≤ countActive pool)
+    (h : prepare cfg env pool = some (kept, maskAny)) :
+    (∀ em ∈ kept, em.active = false) ∧ ∀ k, activeAt kept k = false := by
+  simp only [prepare, Option.map_eq_some_iff, Prod.mk.injEq] at h
+  obtain ⟨l, hl, rfl, _⟩ := h
+  rw [show cfg.numActive - countActive pool = 0 by omega] at hl
+  simp only [fill, Option.some.injEq] at hl
+  subst hl
+  have := deactivate_markFrom_all cfg env hres 0 pool
+  refine ⟨this, ?_⟩
+  intro k
+  simp only [activeAt]
+  cases hk : (deactivate (markFrom cfg env 0 pool))[k]? with
+  | none => rfl
+  | some em => exact this em (List.mem_of_getElem? hk)
+
+/-! ## T16.4 the model's own selection (descending score, until `num_active`) is admissible -/
+
+/-- brackets are intervals -/
+def WFScore (score : Nat → Score) : Prop := ∀ i lo hi, score i = .iv lo hi → lo ≤ hi
+
+theorem keyGe_refl (a : Score) : a.keyGe a = true := by
+  cases a <;> simp [Score.keyGe]
+
+theorem keyGe_total (a b : Score) : a.keyGe b = true ∨ b.keyGe a = true := by
+  cases a <;> cases b <;> simp [Score.keyGe]
+  exact Rat.le_total
+
+theorem keyGe_trans (a b c : Score) (h1 : a.keyGe b = true) (h2 : b.keyGe c = true) : a.keyGe c = true := by
+  cases a <;> cases b <;> cases c <;> simp_all [Score.keyGe]
+  exact Rat.le_trans h2 h1
+
+theorem keyGe_ge (a b : Score) (hb : ∀ lo hi, b = .iv lo hi → lo ≤ hi) (h : a.keyGe b = true) :
+    a.ge b = true := by
+  cases a <;> cases b <;> simp_all [Score.keyGe, Score.ge]
+  rename_i l1 h1 l2 h2
+  exact Rat.le_trans hb h
+
+theorem activeAt_zero (em : Em) (ems : List Em) : activeAt (em :: ems) 0 = em.active := by simp [activeAt]
+
+theorem activeAt_lt (p : List Em) (k : Nat) (h : activeAt p k = true) : k < p.length := by
+  simp only [activeAt] at h
+  cases hk : p[k]? with
+  | none => simp [hk] at h
+  | some em => exact (List.getElem?_eq_some_iff.mp hk).1
+
+theorem bestFrom_none (score : Nat → Score) (i : Nat) (p : List Em) (h : bestFrom score i p = none) :
+    ∀ k, k < p.length → activeAt p k = true := by
+  induction p generalizing i with
+  | nil => intro k hk; simp at hk
+  | cons em ems ih =>
+    simp only [bestFrom] at h
+    cases hr : bestFrom score (i + 1) ems with
+    | none =>
+      simp only [hr] at h
+      cases ha : em.active with
+      | false => simp [ha] at h
+      | true =>
+        intro k hk
+        cases k with
+        | zero => simpa [activeAt_zero] using ha
+        | succ k => rw [activeAt_cons_succ]; exact ih _ hr k (by simpa using hk)
+    | some j =>
+      simp only [hr] at h
+      cases ha : em.active with
+      | true => simp [ha] at h
+      | false =>
+        simp only [ha, Bool.false_eq_true, if_false] at h
+        split at h <;> simp at h
+
+/-- `bestFrom` returns an inactive member whose key is maximal among the inactive ones -/
+theorem bestFrom_some (score : Nat → Score) (i : Nat) (p : List Em) (j : Nat)
+    (h : bestFrom score i p = some j) :
+    ∃ k, j = i + k ∧ k < p.length ∧ activeAt p k = false ∧
+      ∀ k', k' < p.length → activeAt p k' = false → (score j).keyGe (score (i + k')) = true := by
+  induction p generalizing i j with
+  | nil => simp [bestFrom] at h
+  | cons em ems ih =>
+    simp only [bestFrom] at h
+    have hsucc : ∀ k, i + (k + 1) = i + 1 + k := by intro k; omega
+    cases hr : bestFrom score (i + 1) ems with
+    | none =>
+      simp only [hr] at h
+      have hall := bestFrom_none score (i + 1) ems hr
+      cases ha : em.active with
+      | true => simp [ha] at h
+      | false =>
+        simp only [ha, Bool.false_eq_true, if_false, Option.some.injEq] at h
+        subst h
+        refine ⟨0, rfl, by simp, by simp [activeAt_zero, ha], ?_⟩
+        intro k' hk' hak'
+        cases k' with
+        | zero => exact keyGe_refl _
+        | succ k' =>
+          rw [activeAt_cons_succ, hall k' (by simpa using hk')] at hak'
+          cases hak'
+    | some j1 =>
+      simp only [hr] at h
+      obtain ⟨k1, hj1, hk1, ha1, hmax⟩ := ih (i + 1) j1 hr
+      cases ha : em.active with
+      | true =>
+        simp only [ha, if_true, Option.some.injEq] at h
+        subst h
+        refine ⟨k1 + 1, by omega, by simpa using hk1, by simpa [activeAt_cons_succ] using ha1, ?_⟩
+        intro k' hk' hak'
+        cases k' with
+        | zero => simp [activeAt_zero, ha] at hak'
+        | succ k' =>
+          rw [hsucc]
+          exact hmax k' (by simpa using hk') (by simpa [activeAt_cons_succ] using hak')
+      | false =>
+        simp only [ha, Bool.false_eq_true, if_false] at h
+        by_cases hge : (score i).keyGe (score j1) = true
+        · simp only [hge, if_true, Option.some.injEq] at h
+          subst h
+          refine ⟨0, rfl, by simp, by simp [activeAt_zero, ha], ?_⟩
+          intro k' hk' hak'
+          cases k' with
+          | zero => exact keyGe_refl _
+          | succ k' =>
+            rw [hsucc]
+            exact keyGe_trans _ _ _ hge
+              (hmax k' (by simpa using hk') (by simpa [activeAt_cons_succ] using hak'))
+        · simp only [hge, Bool.false_eq_true, if_false, Option.some.injEq] at h
+          subst h
+          refine ⟨k1 + 1, by omega, by simpa using hk1, by simpa [activeAt_cons_succ] using ha1, ?_⟩
+          intro k' hk' hak'
+          cases k' with
+          | zero =>
+            rcases keyGe_total (score i) (score j1) with h1 | h1
+            · exact absurd h1 hge
+            · simpa using h1
+          | succ k' =>
+            rw [hsucc]
+            exact hmax k' (by simpa using hk') (by simpa [activeAt_cons_succ] using hak')
+
+theorem activateAt_lt (j i : Nat) (p : List Em) (h : j < i) : activateAt j i p = p := by
+  induction p generalizing i with
+  | nil => rfl
+  | cons em ems ih =>
+    simp only [activateAt]
+    rw [ih (i + 1) (by omega)]
+    have : ¬ i = j := by omega
+    simp [this]
+
+theorem activateAt_length (j i : Nat) (p : List Em) : (activateAt j i p).length = p.length := by
+  induction p generalizing i with
+  | nil => rfl
+  | cons em ems ih => simp [activateAt, ih]
+
+/-- `activateAt` only ever activates -/
+theorem activateAt_mono (j i : Nat) (p : List Em) (k : Nat) (h : activeAt (activateAt j i p) k = false) :
+    activeAt p k = false := by
+  induction p generalizing i k with
+  | nil => simp [activeAt]
+  | cons em ems ih =>
+    simp only [activateAt] at h
+    cases k with
+    | zero =>
+      simp only [activeAt_zero] at h ⊢
+      by_cases hij : i = j
+      · simp [hij] at h
+      · simpa [hij] using h
+    | succ k =>
+      rw [activeAt_cons_succ] at h ⊢
+      exact ih _ _ h
+
+theorem diffFrom_self (i : Nat) (p : List Em) :
+    ∃ lf, diffFrom i p (p.map (·.active)) = some ([], lf) ∧
+      ((∀ k, k < p.length → activeAt p k = true) → lf = []) := by
+  induction p generalizing i with
+  | nil => exact ⟨[], rfl, fun _ => rfl⟩
+  | cons em ems ih =>
+    obtain ⟨lf, h1, h2⟩ := ih (i + 1)
+    simp only [List.map_cons, diffFrom, h1]
+    cases ha : em.active with
+    | true =>
+      refine ⟨lf, by simp, ?_⟩
+      intro hall
+      exact h2 fun k hk => by simpa [activeAt_cons_succ] using hall (k + 1) (by simpa using hk)
+    | false =>
+      refine ⟨i :: lf, by simp, ?_⟩
+      intro hall
+      have := hall 0 (by simp)
+      simp [activeAt_zero, ha] at this
+
+/-- members of the "left inactive" list are inactive members of the kept pool -/
+theorem diffFrom_lf_mem (i : Nat) (kept : List Em) (a : List Bool) (nw lf : List Nat)
+    (h : diffFrom i kept a = some (nw, lf)) (j : Nat) (hj : j ∈ lf) :
+    ∃ k, j = i + k ∧ k < kept.length ∧ activeAt kept k = false := by
+  induction kept generalizing i a nw lf with
+  | nil => cases a <;> simp_all [diffFrom]
+  | cons em ems ih =>
+    cases a with
+    | nil => simp [diffFrom] at h
+    | cons b bs =>
+      simp only [diffFrom] at h
+      cases hd : diffFrom (i + 1) ems bs with
+      | none => simp [hd] at h
+      | some r =>
+        obtain ⟨nw1, lf1⟩ := r
+        simp only [hd] at h
+        have lift : j ∈ lf1 → ∃ k, j = i + k ∧ k < (em :: ems).length ∧ activeAt (em :: ems) k = false := by
+          intro hm
+          obtain ⟨k, h1, h2, h3⟩ := ih _ _ _ _ hd hm
+          exact ⟨k + 1, by omega, by simpa using h2, by simpa [activeAt_cons_succ] using h3⟩
+        cases ha : em.active <;> cases hb : b <;> simp [ha, hb] at h
+        all_goals obtain ⟨rfl, rfl⟩ := h
+        · simp only [List.mem_cons] at hj
+          rcases hj with rfl | hj
+          · exact ⟨0, rfl, by simp, by simp [activeAt_zero, ha]⟩
+          · exact lift hj
+        · exact lift hj
+        · exact lift hj
+
+/-- undoing one activation in the kept pool moves that member into the "newly activated" list -/
+theorem diffFrom_activateAt (i j : Nat) (p : List Em) (a : List Bool) (nw1 lf1 : List Nat)
+    (hj : ∃ k, j = i + k ∧ k < p.length ∧ activeAt p k = false)
+    (h : diffFrom i (activateAt j i p) a = some (nw1, lf1)) :
+    ∃ nw, diffFrom i p a = some (nw, lf1) ∧ nw.length = nw1.length + 1 ∧ ∀ c ∈ nw, c = j ∨ c ∈ nw1 := by
+  induction p generalizing i a nw1 lf1 with
+  | nil => obtain ⟨k, _, hk, _⟩ := hj; simp at hk
+  | cons em ems ih =>
+    cases a with
+    | nil => simp [activateAt, diffFrom] at h
+    | cons b bs =>
+      obtain ⟨k, hjk, hk, hak⟩ := hj
+      cases k with
+      | zero =>
+        simp only [Nat.add_zero] at hjk
+        subst hjk
+        have hem : em.active = false := by simpa [activeAt_zero] using hak
+        simp only [activateAt, if_true, activateAt_lt j (j + 1) ems (by omega), diffFrom] at h ⊢
+        cases hd : diffFrom (j + 1) ems bs with
+        | none => simp [hd] at h
+        | some r =>
+          obtain ⟨nwr, lfr⟩ := r
+          simp only [hd] at h ⊢
+          cases hb : b with
+          | false => simp [hb] at h
+          | true =>
+            simp only [hb, if_true, Option.some.injEq, Prod.mk.injEq] at h
+            obtain ⟨rfl, rfl⟩ := h
+            refine ⟨j :: nwr, by simp [hem], by simp, ?_⟩
+            intro c hc
+            simp only [List.mem_cons] at hc
+            exact hc
+      | succ k =>
+        have hne : ¬ i = j := by omega
+        simp only [activateAt, hne, if_false, diffFrom] at h ⊢
+        cases hd1 : diffFrom (i + 1) (activateAt j (i + 1) ems) bs with
+        | none => simp [hd1] at h
+        | some r =>
+          obtain ⟨nwr1, lfr1⟩ := r
+          obtain ⟨nwr, hdr, hlen, hmem⟩ := ih (i + 1) bs nwr1 lfr1
+            ⟨k, by omega, by simpa using hk, by simpa [activeAt_cons_succ] using hak⟩ hd1
+          simp only [hd1] at h
+          simp only [hdr]
+          cases ha : em.active with
+          | false =>
+            cases hb : b with
+            | false =>
+              simp only [ha, hb, Bool.false_eq_true, if_false, Option.some.injEq, Prod.mk.injEq] at h ⊢
+              obtain ⟨rfl, rfl⟩ := h
+              exact ⟨nwr, ⟨rfl, rfl⟩, hlen, hmem⟩
+            | true =>
+              simp only [ha, hb, Bool.false_eq_true, if_false, if_true, Option.some.injEq,
+                Prod.mk.injEq] at h ⊢
+              obtain ⟨rfl, rfl⟩ := h
+              refine ⟨i :: nwr, ⟨rfl, rfl⟩, by simp [hlen], ?_⟩
+              intro c hc
+              simp only [List.mem_cons] at hc ⊢
+              rcases hc with rfl | hc
+              · right; left; rfl
+              · rcases hmem c hc with h1 | h1
+                · left; exact h1
+                · right; right; exact h1
+          | true =>
+            cases hb : b with
+            | false => simp [ha, hb] at h
+            | true =>
+              simp only [ha, hb, if_true, Option.some.injEq, Prod.mk.injEq] at h ⊢
+              obtain ⟨rfl, rfl⟩ := h
+              exact ⟨nwr, ⟨rfl, rfl⟩, hlen, hmem⟩
+
+/-- T16.4 (model side): selecting the `need` best inactive emitters, best first — the code's
+    `argsort(ucb1)[::-1]` loop with well-defined scores — passes the admissibility check. -/
+theorem activateTop_admissible (score : Nat → Score) (hwf : WFScore score) (nd : Nat) (kept : List Em) :
+    judge score nd kept ((activateTop score nd kept).map (·.active)) = true := by
+  suffices ∀ nd p, ∃ nw lf, diffFrom 0 p ((activateTop score nd p).map (·.active)) = some (nw, lf) ∧
+      nw.length = min nd (nw.length + lf.length) ∧
+      ∀ c ∈ nw, ∀ j ∈ lf, (score c).ge (score j) = true by
+    obtain ⟨nw, lf, h1, h2, h3⟩ := this nd kept
+    simp only [judge, h1, Bool.and_eq_true, beq_iff_eq, List.all_eq_true]
+    exact ⟨h2, h3⟩
+  intro nd
+  induction nd with
+  | zero =>
+    intro p
+    obtain ⟨lf, h1, _⟩ := diffFrom_self 0 p
+    exact ⟨[], lf, by simpa [activateTop] using h1, by simp, by simp⟩
+  | succ nd ih =>
+    intro p
+    simp only [activateTop]
+    cases hb : bestFrom score 0 p with
+    | none =>
+      obtain ⟨lf, h1, h2⟩ := diffFrom_self 0 p
+      have := h2 (bestFrom_none score 0 p hb)
+      subst this
+      exact ⟨[], [], by simpa using h1, by simp, by simp⟩
+    | some j =>
+      simp only
+      obtain ⟨k, hjk, hk, hak, hmax⟩ := bestFrom_some score 0 p j hb
+      obtain ⟨nw1, lf1, hd1, hn1, ho1⟩ := ih (activateAt j 0 p)
+      obtain ⟨nw, hd, hlen, hmem⟩ := diffFrom_activateAt 0 j p _ nw1 lf1 ⟨k, hjk, hk, hak⟩ hd1
+      refine ⟨nw, lf1, hd, by omega, ?_⟩
+      intro c hc jj hjj
+      rcases hmem c hc with rfl | hc1
+      · obtain ⟨k2, hk2, hlt2, hact2⟩ := diffFrom_lf_mem 0 _ _ _ _ hd1 jj hjj
+        rw [activateAt_length] at hlt2
+        have := hmax k2 hlt2 (activateAt_mono c 0 p k2 hact2)
+        rw [← hk2] at this
+        exact keyGe_ge _ _ (hwf jj) this
+      · exact ho1 c hc1 jj hjj
+
+/-- T16.4: with well-formed brackets the model's own selection (`choice = none`) is never refused -/
+theorem model_choice_accepted (cfg : Cfg) (s : St) (env : AskEnv) (hwf : WFScore env.score)
+    (hch : env.choice = none) : (doAsk cfg s env).2 ≠ .inadmissible := by
+  simp only [doAsk]
+  split
+  · simp
+  · split
+    · simp
+    · rename_i kept maskAny _
+      have : chosenOf env (need cfg kept maskAny) kept =
+          (activateTop env.score (need cfg kept maskAny) kept).map (·.active) := by
+        simp [chosenOf, hch]
+      simp only [this, activateTop_admissible env.score hwf, if_true]
+      simp
+
+/-! ## non-vacuity -/
+
+/-- a concrete history: pool of 5, `num_active = 2`, `reselect = 'terminated'`; emitter 1 has a
+    restart counter that never moves, the others have none; unequal batch sizes (one of them 0);
+    only the first row of the first batch is inserted.  Second `ask`: emitter 1 is kept, emitter 0 is
+    reselected and replaced by a never-selected emitter (score `top`) although its own score is
+    finite; third `ask`: emitters 0 and 2 compete with finite scores and never-selected 3 wins.
+    An out-of-order `ask`, an out-of-order `tell` and an `ask_dqd` in between change nothing. -/
+theorem nonvacuous :
+    let cfg : Cfg := ⟨2, .terminated, .batch, false⟩
+    let rs : Nat → Int := fun i => if i = 1 then 0 else -1
+    let env1 : AskEnv := ⟨rs, fun _ => .top, fun i => [2, 0, 1, 3, 1].getD i 0, none⟩
+    let env2 : AskEnv := ⟨rs, fun i => if i = 0 then .iv 1 1 else if i = 1 then .iv 0 0 else .top,
+      fun i => [2, 1, 1, 3, 1].getD i 0, none⟩
+    let env3 : AskEnv := ⟨rs, fun i => if i = 0 then .iv 1 2 else if i = 2 then .iv 0 1 else
+      if i = 1 then .iv 0 0 else .top, fun _ => 1, none⟩
+    let st1 : Nat → Nat := fun p => if p = 0 then 2 else 0
+    let ops := [Op.tell st1, .ask env1, .ask env2, .askDqd, .tell st1, .ask env2, .tell (fun _ => 0),
+                .ask env3]
+    let s := run cfg (init 5) ops
+    s.pool.map (·.active) = [false, true, false, true, false] ∧
+    s.pool.map (·.selection) = [2, 1, 1, 0, 0] ∧
+    s.pool.map (·.success) = [1, 0, 0, 0, 0] ∧
+    s.phase = .ask ∧
+    s.trace = [.ask 0 2, .ask 1 0, .add false [0, 1], .tell 0 [(0, 0), (0, 1)] [0, 1] [2, 0],
+               .tell 1 [] [] [], .ask 1 1, .ask 2 1, .add false [0, 1], .tell 1 [(1, 0)] [0] [0],
+               .tell 2 [(2, 0)] [1] [0], .ask 1 1, .ask 3 1] ∧
+    countActive s.pool = cfg.numActive := by
+  decide
+
 end Pyribs.C16
